@@ -95,11 +95,15 @@ pub enum K1 {
     InvalidSourcePort,
     InvalidDestinationPort,
     InvalidUtf8,
+    /// a variant this harness does not know (added by a change to the crate)
+    Other,
 }
 
+#[allow(unreachable_patterns)]
 pub fn k1(e: &v1::ParseError) -> K1 {
     use v1::ParseError as E;
     match e {
+        _ if false => K1::Other,
         E::InvalidPrefix => K1::InvalidPrefix,
         E::Partial => K1::Partial,
         E::MissingPrefix => K1::MissingPrefix,
@@ -116,13 +120,16 @@ pub fn k1(e: &v1::ParseError) -> K1 {
         E::InvalidDestinationAddress(_) => K1::InvalidDestinationAddress,
         E::InvalidSourcePort(_) => K1::InvalidSourcePort,
         E::InvalidDestinationPort(_) => K1::InvalidDestinationPort,
+        _ => K1::Other,
     }
 }
 
+#[allow(unreachable_patterns)]
 pub fn k1b(e: &v1::BinaryParseError) -> K1 {
     match e {
         v1::BinaryParseError::Parse(p) => k1(p),
         v1::BinaryParseError::InvalidUtf8(_) => K1::InvalidUtf8,
+        _ => K1::Other,
     }
 }
 
@@ -221,7 +228,9 @@ pub fn v1_fromstr_addr(input: &str) -> O1 {
 // ---------------------------------------------------------------------------------------------
 // v2
 
-/// Maps a v2 parse error to the oracle's vocabulary (None for the TLV-only variants).
+/// Maps a v2 parse error to the oracle's vocabulary (None for the TLV-only variants and for
+/// variants this harness does not know).
+#[allow(unreachable_patterns)]
 pub fn v2_err_ref(e: &v2::ParseError) -> Option<V2Ref> {
     use v2::ParseError as E;
     Some(match e {
@@ -234,6 +243,7 @@ pub fn v2_err_ref(e: &v2::ParseError) -> Option<V2Ref> {
         E::Partial(a, b) => V2Ref::Partial(*a, *b),
         E::InvalidAddresses(a, b) => V2Ref::InvalidAddresses(*a, *b),
         E::InvalidTLV(..) | E::Leftovers(_) => return None,
+        _ => return None,
     })
 }
 
